@@ -4,6 +4,7 @@
 From Coq Require Import List ZArith Bool String.
 Import ListNotations.
 Require Import Base Prog Sig Interp Model Scenario ObjModel ScnObj ObjPin Compose.
+Require AttachCode Attach AttachRefine.
 
 (* any non-empty sequence of deal decorators (single or grouped: see below) applied to a function object that is not a deal
    wrapper builds exactly one registry, whose original function is that object and which holds exactly the applied validators,
@@ -44,3 +45,20 @@ Print Assumptions C09_foreign_kept.
 
 Example C09_nonvacuous : not_wrapper (fst (new_obj heap0 obj0)) 0 /\ is_deal_step (SVal KPre 1) = true.
 Proof. split; [exact I|reflexivity]. Qed.
+
+(* the tie to the source for the decoration step itself: the statements of Contracts.attach / Contracts.attach_has regenerated from
+   deal/_runtime/_contracts.py on every run (Gen/Attach.v), run by Sem/AttachCode.v, are ObjModel.attach / attach_has -- the functions
+   every theorem above is about (apply_step) -- for every heap, kind, validator / patcher and function object; once contracts are
+   permanently removed both hand back the function and change nothing (C07). _ensure_wrapped stays a pinned hand-written model. *)
+Theorem C09_code_attach_refines_model : forall k v h func,
+  AttachCode.exec_attach (AttachCode.a_attach Attach.code) false k v h func None = Some (attach k v h func).
+Proof. exact AttachRefine.exec_attach_is_attach. Qed.
+Theorem C09_code_attach_has_refines_model : forall k p h func,
+  AttachCode.exec_attach (AttachCode.a_attach_has Attach.code) false k p h func None = Some (attach_has p h func).
+Proof. exact AttachRefine.exec_attach_has_is_attach_has. Qed.
+Theorem C09_code_attach_removed_identity : forall k v h func,
+  AttachCode.exec_attach (AttachCode.a_attach Attach.code) true k v h func None = Some (h, func) /\
+  AttachCode.exec_attach (AttachCode.a_attach_has Attach.code) true k v h func None = Some (h, func).
+Proof. exact AttachRefine.exec_attach_removed. Qed.
+Print Assumptions C09_code_attach_refines_model.
+Print Assumptions C09_code_attach_has_refines_model.
